@@ -371,7 +371,13 @@ class Sym:
         return hash(self.t)
 
     # -- arithmetic
-    def _bin(self, o, f):
+    def _bin(self, o, f, op=None, rev=False):
+        if isinstance(o, complex) and op is not None:
+            from .snp import C
+            x, y = C(self), C.of(o)
+            if rev:
+                x, y = y, x
+            return {"add": lambda: x + y, "sub": lambda: x - y, "mul": lambda: x * y, "div": lambda: x / y}[op]()
         try:
             b = _lift(o)
         except Unsupported:
@@ -379,27 +385,27 @@ class Sym:
         return Sym(z3.simplify(f(self.t, b)))
 
     def __add__(self, o):
-        return self._bin(o, lambda a, b: a + b)
+        return self._bin(o, lambda a, b: a + b, "add")
 
     def __radd__(self, o):
-        return self._bin(o, lambda a, b: b + a)
+        return self._bin(o, lambda a, b: b + a, "add", True)
 
     def __sub__(self, o):
-        return self._bin(o, lambda a, b: a - b)
+        return self._bin(o, lambda a, b: a - b, "sub")
 
     def __rsub__(self, o):
-        return self._bin(o, lambda a, b: b - a)
+        return self._bin(o, lambda a, b: b - a, "sub", True)
 
     def __mul__(self, o):
         if isinstance(o, (list, tuple)):
             raise Unsupported("sequence repetition by a symbolic count")
-        r = self._bin(o, lambda a, b: a * b)
+        r = self._bin(o, lambda a, b: a * b, "mul")
         return r
 
     def __rmul__(self, o):
         if isinstance(o, (list, tuple)):
             raise Unsupported("sequence repetition by a symbolic count")
-        return self._bin(o, lambda a, b: b * a)
+        return self._bin(o, lambda a, b: b * a, "mul", True)
 
     def __neg__(self):
         return Sym(z3.simplify(-self.t))
@@ -411,9 +417,15 @@ class Sym:
         return Sym(z3.If(self.t >= 0, self.t, -self.t))
 
     def __truediv__(self, o):
+        if isinstance(o, complex):
+            return self._bin(o, None, "div")
+        if not isinstance(o, (Sym, SymBool, int, float)) and not z3.is_expr(o) and not hasattr(o, "_cmp_real") and not (hasattr(o, "terms") and hasattr(o, "value")):
+            return NotImplemented
         return sym_truediv(self, o)
 
     def __rtruediv__(self, o):
+        if isinstance(o, complex):
+            return self._bin(o, None, "div", True)
         return sym_truediv(o, self)
 
     def __floordiv__(self, o):
